@@ -374,6 +374,55 @@ def check_one(name, prog, st, dump, sy):
     return None
 
 
+def extras(name):
+    """per document, with the all-CONTINUE program: (a) at every handler callback in turn a complete, independent cif_parse of another
+    document is made from inside the callback - the outer parse must not notice; (b) loop_start assigns a category to the loop
+    it is given (the use shown in misc/parser_callbacks.c) - the stored loops must carry exactly those categories"""
+    ex = worker_exec('fast')
+    out = []
+    n = 0
+    base = run_program(ex, name, {})
+    other = doc_text('composite' if name != 'composite' else 'frames')
+    for k in range(base[0]['ncalls']):
+        a = ex.run(['reset', 'bytes.set B0 %s' % doc_text(name).encode().hex(), 'bytes.set B1 %s' % other.encode().hex(),
+                    'parse new:C1 B0 h=1 syn=1 nest=%d:B1' % k, 'dump C1', 'parse - B0 h=1 syn=1 nest=%d:B1' % k])
+        n += 1
+        err = check_one(name, {}, a[3], a[4], a[5])
+        if err:
+            out.append((name, {}, 'with a nested cif_parse of another document inside handler callback #%d: %s' % (k, err)))
+    for mode in (1, 2):       # 1: every loop gets a category; 2: only the first one does (the others must stay without)
+        n += 1
+        setcat_run(ex, name, mode, out)
+    return out, n
+
+
+def setcat_run(ex, name, mode, out):
+    a = ex.run(['reset', 'bytes.set B0 %s' % doc_text(name).encode().hex(), 'parse new:C1 B0 h=1 setcat=%d' % mode, 'dump C1'])
+    st, dump = a[2], a[3]
+    if not isinstance(st, dict) or st.get('rc') != 0 or st.get('nerr') or 'bad-query' in json.dumps(st.get('log')):
+        out.append((name, {}, 'loop_start assigning a category: the parse answers %s' % json.dumps(st)[:300]))
+        return
+    cats = {}
+    starts = [e for e in st['log'] if e[0] == 'loop_start']
+    for k, e in enumerate(starts):
+        want = 'c%d' % k if (mode == 1 or k == 0) else None
+        if e[2] != want:
+            out.append((name, {}, 'loop_start #%d: the loop reports category %r where %r was expected (categories are assigned to %s)' % (k, e[2], want, 'every loop' if mode == 1 else 'the first loop only')))
+        cats.setdefault(tuple(sorted(norm(x) for x in e[1])), []).append(want)
+
+    def visit(c, path):
+        for l in c['loops']:
+            if l['cat'] == '':
+                continue
+            key = tuple(sorted(norm(x) for x in l['names']))
+            if l['cat'] not in cats.get(key, []):
+                out.append((name, {}, 'loop_start assigning a category: stored loop %r of %s has category %r, assigned: %r' % (l['names'], path, l['cat'], cats.get(key))))
+        for f in c['frames']:
+            visit(f, path + '/' + f['code'])
+    for b in dump['blocks']:
+        visit(b, b['code'])
+
+
 def work(chunk, bound):
     ex = worker_exec('fast')
     out = []
@@ -442,6 +491,15 @@ def main():
             kind = ''.join(ch for ch in kind if not ch.isdigit())
             rep.violation({'doc': name, 'kind': kind},
                           {'doc': name, 'text': doc_text(name), 'program': progstr(prog), 'error': info})
+    for res in pmap(extras, list(DOCS)):
+        if isinstance(res, dict):
+            rep.violation({'kind': 'executor'}, res)
+            continue
+        out, n = res
+        execs += n
+        for name, prog, info in out:
+            kind = ''.join(ch for ch in info[:70] if not ch.isdigit())
+            rep.violation({'doc': name, 'kind': kind}, {'doc': name, 'text': doc_text(name), 'program': '', 'error': info})
     return rep.finish({'states': execs, 'transitions': execs * 2, 'traces_validated_against_impl': execs * 2,
                        'evaluations': execs, 'distinct_nontrivial': distinct,
                        'samples': [{'doc': 'frames', 'text': doc_text('frames'), 'program': {4: SKIPS}}], 'deviation_bound': bound,
